@@ -84,7 +84,14 @@ pub fn build(seed: u64, case: u64, tag: &str) -> Scen {
     let garbage: BTreeSet<String> = before.difference(&still).cloned().collect();
     // A's source: the garbage content reappears
     add(&mut w, &mut rng);
-    let delete = if case % 2 == 0 { vec![] } else { vec![0] };
+    // B is a gc, a delete of the oldest version, or a delete of the newest version (the one
+    // the backup uses as its basis)
+    let newest = *raw.bands.keys().max().unwrap();
+    let delete = match case % 3 {
+        0 => vec![],
+        1 => vec![0],
+        _ => vec![newest],
+    };
     let desc = format!(
         "bands {:?}, garbage blocks {}, B = {}",
         raw.bands.keys().collect::<Vec<_>>(),
@@ -322,7 +329,7 @@ fn random_plan(rng: &mut Rng, n: usize) -> Plan {
 
 pub fn run(tier: Tier, replay: Option<Value>) -> i32 {
     let run = Run::new("C06", "exploration", tier, replay.clone());
-    let n_scen = tier.pick(2u64, 12);
+    let n_scen = tier.pick(3u64, 12);
     for case in 0..n_scen {
         if let Some(r) = &replay {
             if r.get("case").and_then(|c| c.as_u64()) != Some(case) {
@@ -342,7 +349,7 @@ pub fn run(tier: Tier, replay: Option<Value>) -> i32 {
         } else {
             let mut p = plans_bound1(n);
             match tier {
-                Tier::Quick => p.extend(plans_bound2(n, if case == 0 { 1 } else { 4 })),
+                Tier::Quick => p.extend(plans_bound2(n, if case == 0 { 1 } else { 3 })),
                 Tier::Thorough => p.extend(plans_bound2(n, 1)),
             }
             let mut rng = Rng::for_case(run.seed, case, 8);
@@ -385,7 +392,7 @@ pub fn run(tier: Tier, replay: Option<Value>) -> i32 {
     }
     let _ = Path::new("");
     run.finish(
-        "actors A = backup(source) and B = gc or delete of an old version, on archives holding a complete version plus garbage blocks (a large-file block and a combined block left by a hand-removed band) whose content reappears in A's source; every storage operation of either actor is parked until a deterministic scheduler grants it (the scheduler only chooses when both actors are settled). Schedules: all with <= 1 preemption (every start offset of either actor, every switch point), a grid of 2-preemption schedules (every pair in the thorough tier), and random schedules with 3-5 switches. When both have finished: every version with a tail must restore exactly to the tree it was made from and no complete band may reference a removed block. Distinct = distinct grant sequences.",
+        "actors A = backup(source) and B = gc, delete of the oldest version, or delete of the newest version (the backup's basis), on archives holding a complete version plus garbage blocks (a large-file block and a combined block left by a hand-removed band) whose content reappears in A's source; every storage operation of either actor is parked until a deterministic scheduler grants it (the scheduler only chooses when both actors are settled). Schedules: all with <= 1 preemption (every start offset of either actor, every switch point), a grid of 2-preemption schedules (every pair in the thorough tier), and random schedules with 3-5 switches. When both have finished: every version with a tail must restore exactly to the tree it was made from and no complete band may reference a removed block. Distinct = distinct grant sequences.",
         &["granularity is one storage operation; operations of parallel listing tasks of one actor are granted in canonical order", "interleavings beyond the explored preemption bound are sampled, not enumerated"],
         Some(false),
         &[("schedules_run", 50), ("schedules_backup_references_former_garbage", 5), ("complete_versions_restored", 100)],
